@@ -111,7 +111,10 @@ def append_attributes(*args: Tuple[str, Any]) -> Dict:
 
     for key, value in args:
         if key in result:
-            result[key] += " " + value
+            # NOTE: Values don't have to be strings (e.g. numbers), so we can't simply use `+`
+            prev_value = result[key]
+            prev_value = prev_value if isinstance(prev_value, str) else str(prev_value)
+            result[key] = prev_value + " " + (value if isinstance(value, str) else str(value))
         else:
             result[key] = value
 
